@@ -33,9 +33,10 @@ Inductive sres :=
 | RPanic.
 
 (** one instrument on the connection: subscription id, instrument key, REST snapshot
-    (id, engine time, levels), and the simulated exchange: changes per update id (index = id) *)
+    (id, engine time, levels), and the simulated exchange: the changes of update id
+    [c_base + k] are the k-th element of [c_deltas] (no changes at any other id) *)
 Record icfg := mkI {
-  c_sid : N; c_key : N; c_L : N; c_stime : option Z;
+  c_sid : N; c_key : N; c_base : N; c_L : N; c_stime : option Z;
   c_sbids : list (Z * Z); c_sasks : list (Z * Z);
   c_deltas : list (list (Z * Z) * list (Z * Z)) }.
 
@@ -58,8 +59,11 @@ Inductive case :=
 
 (* ---- helpers -------------------------------------------------------------------------------- *)
 
-Definition delta_of (l : list (list (Z * Z) * list (Z * Z))) (n : N) : list (Z * Z) * list (Z * Z) :=
-  nth (N.to_nat n) l ([], []).
+Definition delta_of (base : N) (l : list (list (Z * Z) * list (Z * Z))) (n : N)
+  : list (Z * Z) * list (Z * Z) :=
+  if N.ltb n base then ([], []) else nth (N.to_nat (n - base)) l ([], []).
+
+Definition delta_i (i : icfg) : N -> list (Z * Z) * list (Z * Z) := delta_of (c_base i) (c_deltas i).
 
 Fixpoint find_inst (sid : N) (l : list icfg) : option icfg :=
   match l with
@@ -86,8 +90,8 @@ Definition msg_of (insts : list icfg) (d : dmsg) : msg :=
   match find_inst (d_sid d) insts with
   | Some i =>
       mkMsg (d_U d) (d_u d) (d_pu d) (d_E d) (d_T d)
-            (form (payload (delta_of (c_deltas i)) Bid (d_U d) (d_u d)))
-            (form (payload (delta_of (c_deltas i)) Ask (d_U d) (d_u d)))
+            (form (payload (delta_i i) Bid (d_U d) (d_u d)))
+            (form (payload (delta_i i) Ask (d_U d) (d_u d)))
   | None => mkMsg (d_U d) (d_u d) (d_pu d) (d_E d) (d_T d) [] []
   end.
 
@@ -209,11 +213,16 @@ Definition grid_of (i : icfg) : list Z :=
   dedup (map fst (c_sbids i) ++ map fst (c_sasks i) ++
          flat_map (fun d => map fst (fst d) ++ map fst (snd d)) (c_deltas i)).
 
+(** the exchange's book as of id [n], computed from the first id that changes anything and
+    no further than the last one (ids may be as large as 2^64 - 2: never count from 0) *)
+Definition Bcap (i : icfg) (sd : side) (n : N) : pmap :=
+  spec_upsert pempty (payload (delta_i i) sd (c_base i)
+                              (N.min n (c_base i + N.of_nat (length (c_deltas i))))).
+
 (** the observed book equals the simulated exchange's book as of the sequence it reports *)
 Definition obs_book_is (i : icfg) (b : book) : bool :=
-  let dl := delta_of (c_deltas i) in
   let g := grid_of i in
-  side_is_map Bid g (B dl Bid (bseq b)) (bids b) && side_is_map Ask g (B dl Ask (bseq b)) (asks b).
+  side_is_map Bid g (Bcap i Bid (bseq b)) (bids b) && side_is_map Ask g (Bcap i Ask (bseq b)) (asks b).
 
 (** is the delivered message truthful about the simulated exchange?  (levels are derived from
     the changes by construction; ids: U <= u, and for futures pu < U with no change in between) *)
@@ -221,9 +230,9 @@ Definition genuine_b (v : venue) (i : icfg) (d : dmsg) : bool :=
   N.leb (d_U d) (d_u d) &&
   match v with
   | Spot => true
-  | Fut => N.ltb (d_pu d) (d_U d) &&
+  | Fut => N.ltb (d_pu d) (d_U d) && N.leb (d_U d - d_pu d) 4096 &&
            forallb (fun k => let n := (d_pu d + 1 + N.of_nat k)%N in
-                             match delta_of (c_deltas i) n with ([], []) => true | _ => false end)
+                             match delta_i i n with ([], []) => true | _ => false end)
                    (seq 0 (N.to_nat (d_U d - d_pu d - 1)))
   end.
 
